@@ -150,6 +150,31 @@ Fixpoint lits (s : list Z) (z : zip) (c : caps) (k : K) : option A :=
 
 End Engine.
 
+(* the repeat loop, parameterised by the matcher of the body.  [n] = iterations done; every
+   iteration must consume (CPython's empty-iteration guard; bodies of the repository's
+   patterns are never nullable, checked by the translator) *)
+Fixpoint rep_loop {A : Type} (mr : zip -> caps -> (zip -> caps -> option A) -> option A)
+         (greedy : bool) (lo : nat) (hi : option nat) (k : zip -> caps -> option A)
+         (budget : nat) (n : nat) (z : zip) (c : caps) {struct budget} : option A :=
+  let can_stop := Nat.leb lo n in
+  let can_more := match hi with Some h => Nat.ltb n h | None => true end in
+  match budget with
+  | O => if can_stop then k z c else None
+  | S b' =>
+    let more := if can_more
+                then mr z c (fun z' c' => if Nat.ltb (z_idx z) (z_idx z') then rep_loop mr greedy lo hi k b' (S n) z' c' else None)
+                else None in
+    let stop := if can_stop then k z c else None in
+    if greedy then match more with Some x => Some x | None => stop end
+    else match stop with Some x => Some x | None => more end
+  end.
+
+Definition look_start (ahead : bool) (w : option nat) (z : zip) : option zip :=
+  if ahead then Some z else match w with Some n => zback n z | None => None end.
+
+Definition look_k (ahead : bool) (z : zip) : zip -> caps -> option caps :=
+  fun z' c' => if ahead then Some c' else if Nat.eqb (z_idx z') (z_idx z) then Some c' else None.
+
 Fixpoint m (U : uni) {A : Type} (r : rx) (z : zip) (c : caps) (k : zip -> caps -> option A) {struct r} : option A :=
   match r with
   | REps => k z c
@@ -161,19 +186,7 @@ Fixpoint m (U : uni) {A : Type} (r : rx) (z : zip) (c : caps) (k : zip -> caps -
   | RAlt a b => match m U a z c k with Some x => Some x | None => m U b z c k end
   | RFail => None
   | RRep greedy lo hi r1 =>
-    (fix loop (budget : nat) (n : nat) (z : zip) (c : caps) {struct budget} : option A :=
-       let can_stop := Nat.leb lo n in
-       let can_more := match hi with Some h => Nat.ltb n h | None => true end in
-       match budget with
-       | O => if can_stop then k z c else None
-       | S b' =>
-         let more := if can_more
-                     then m U r1 z c (fun z' c' => if Nat.ltb (z_idx z) (z_idx z') then loop b' (S n) z' c' else None)
-                     else None in
-         let stop := if can_stop then k z c else None in
-         if greedy then match more with Some x => Some x | None => stop end
-         else match stop with Some x => Some x | None => more end
-       end) (S (length (z_rest z))) O z c
+    rep_loop (fun z0 c0 k0 => m U r1 z0 c0 k0) greedy lo hi k (S (length (z_rest z))) O z c
   | RGroup g r1 => m U r1 z c (fun z' c' => k z' ((g, (z_idx z, z_idx z')) :: c'))
   | RBackref g =>
     match cap_get c g with
@@ -181,13 +194,10 @@ Fixpoint m (U : uni) {A : Type} (r : rx) (z : zip) (c : caps) (k : zip -> caps -
     | None => None
     end
   | RLook ahead neg r1 =>
-    let start := if ahead then Some z
-                 else match width r1 with Some w => zback w z | None => None end in
-    match start with
+    match look_start ahead (width r1) z with
     | None => if neg then k z c else None
     | Some z0 =>
-      let res := m U r1 z0 c (fun z' c' => if ahead then Some c' else if Nat.eqb (z_idx z') (z_idx z) then Some c' else None) in
-      match res with
+      match m U r1 z0 c (look_k ahead z) with
       | Some c' => if neg then None else k z c'
       | None => if neg then k z c else None
       end
